@@ -125,6 +125,11 @@ MAssList(m, r, sz, vals) ==
   IN IF cnt < r.n THEN [st |-> "ValueError", mem |-> m2]
      ELSE IF cnt > r.n /\ Variant # "ass_extra" THEN [st |-> "ValueError", mem |-> m2]
      ELSE [st |-> "ok", mem |-> m2]
+(* same, source = bytes / bytearray into a char array (:2631-2653): the length is compared first,
+   nothing is stored on a mismatch, memcpy otherwise *)
+MAssBytes(m, r, vals) ==
+  IF Len(vals) # r.n THEN [st |-> "ValueError", mem |-> m]
+  ELSE [st |-> "ok", mem |-> Write(m, r.off, Flat(vals))]
 (* same, source = cdata array of the same item type and the same length: memmove (:2617-2624);
    any other cdata array is iterated like a list, reading its items while storing. *)
 MMove(m, dst, src, n) ==          \* C memmove: as if through a temporary
@@ -156,7 +161,7 @@ MAddressOf(v, i) == [k |-> "ptr", sz |-> v.sz, len |-> 0, safe |-> FALSE, off |-
 ItemBytes(b) == [k \in 1..ISz |-> (b + k - 1) % 256]
 Root == [k |-> RootKind, sz |-> ISz, off |-> 0, len |-> RootLen, safe |-> TRUE]
 NoRes == [op |-> "init", a |-> 0, b |-> 0, s |-> Sl(0, 0), vals |-> <<>>, st |-> "ok",
-          val |-> <<>>, num |-> 0]
+          val |-> <<>>, num |-> 0, src |-> "list"]
 
 Init == /\ mem = [k \in 1..(ISz * RootLen) |-> k]          \* distinct bytes: aliasing is visible at once
         /\ views = <<Root>>
@@ -200,13 +205,14 @@ Slice(a, s) ==
   /\ views' = IF r.st = "ok" THEN Append(views, MSliceView(v, r)) ELSE views
   /\ UNCHANGED mem
 
-SliceAssign(a, s, bs) ==          \* bs: sequence of seeds
+SliceAssign(a, s, bs, src) ==     \* bs: sequence of seeds; src: a list/tuple/iterator, or bytes (char arrays)
   LET v == views[a]  r == MSliceArg(v, s)
       vals == [k \in 1..Len(bs) |-> ItemBytes(bs[k])]
-      o == IF r.st = "ok" THEN MAssList(mem, r, v.sz, vals) ELSE [st |-> r.st, mem |-> mem] IN
+      o == IF r.st # "ok" THEN [st |-> r.st, mem |-> mem]
+           ELSE IF src = "bytes" THEN MAssBytes(mem, r, vals) ELSE MAssList(mem, r, v.sz, vals) IN
   /\ Tick
   /\ r.st = "ok" => EnvSl(v, r.off, v.sz * r.n)
-  /\ res' = [NoRes EXCEPT !.op = "assign", !.a = a, !.s = s, !.st = o.st, !.vals = vals]
+  /\ res' = [NoRes EXCEPT !.op = "assign", !.a = a, !.s = s, !.st = o.st, !.vals = vals, !.src = src]
   /\ mem' = o.mem
   /\ UNCHANGED views
 
@@ -262,7 +268,8 @@ NextOp ==
         \/ \E a \in VIdx, i \in Idx : GetItem(a, i)
         \/ \E a \in VIdx, i \in Idx, b \in Seeds : SetItem(a, i, b)
         \/ \E a \in VIdx, s \in SliceReqs : Slice(a, s)
-        \/ \E a \in VIdx, s \in SliceReqs : \E bs \in SeedSeqs(s.j - s.i) : SliceAssign(a, s, bs)
+        \/ \E a \in VIdx, s \in SliceReqs, src \in (IF ISz = 1 THEN {"list", "bytes"} ELSE {"list"}) :
+              \E bs \in SeedSeqs(s.j - s.i) : SliceAssign(a, s, bs, src)
         \/ \E a \in VIdx, b \in VIdx, s \in SliceReqs : SliceAssignView(a, s, b)
         \/ \E a \in VIdx, i \in Idx : PtrAdd(a, i)
         \/ \E a \in VIdx, i \in Idx : PtrSub(a, i)
